@@ -63,4 +63,8 @@ module BufM = struct
 end
 module BufC = Check (BufM)
 
-let init () = register "buffer" (fun kind id rest -> BufC.handle kind id rest) BufC.summary
+let init () =
+  register "buffer" (fun kind id rest -> BufC.handle kind id rest) BufC.summary;
+  (* case markers of monitor-only scenarios: nothing for the model to decide *)
+  register_fn "c12_buffer_case" (fun _ -> [1]);
+  register_fn "c12_channel_case" (fun _ -> [1])
